@@ -315,6 +315,28 @@ def m_index_range(E, st, fr, bi, callee, args, dest_ty):
     return ret1(Pt(key), st)
 
 
+def m_split_at(E, st, fr, bi, callee, args, dest_ty):
+    """<[T]>::split_at(mid) -> (&s[..mid], &s[mid..]) as two immutable views; panics when mid > len"""
+    p = args[0]
+    s = as_seq(E, st, p)
+    mid = args[1]
+    ok = le_proved(E, st, mid, s.len)
+    obligation(E, fr, bi, "SliceRange", ok, f"split_at({st.itv[mid.vid]}) of len {st.itv[s.len.vid]}", "split_at mid <= len")
+    if not ok:
+        E.assume_cmp(st, "Le", mid.vid, s.len.vid)
+    usz = E.ctx.usize_ty()
+    c = st.const(mid)
+    rest = E.binop(st, "Sub", s.len, mid, usz, False)
+    h1 = h2 = None
+    if s.head and c is not None:
+        h1 = {k: v for k, v in s.head.items() if k < c} or None
+        h2 = {k - c: v for k, v in s.head.items() if k >= c} or None
+    k1, k2 = ("h", "split0", fr.id, bi), ("h", "split1", fr.id, bi)
+    st.store[k1] = Sq(s.elem, mid, h1, None)
+    st.store[k2] = Sq(s.elem, rest, h2, None)
+    return ret1(Ag((Pt(k1), Pt(k2))), st)
+
+
 def m_try_from_slice_array(E, st, fr, bi, callee, args, dest_ty):
     # <[T;N] as TryFrom<&[T]>> / TryFrom<Vec<T>> / <&[T] as TryInto<[T;N]>>::try_into  -> Result<[T;N], _>
     t = E.prog.ty(dest_ty)
@@ -1768,6 +1790,7 @@ def build(ctx):
     A(r"^<std::(slice|vec|iter|array)::.* as std::iter::Iterator>::next$", m_iter_next)
     A(r"^<bit_vec::Iter<.*> as std::iter::Iterator>::next$", m_iter_next)
     A(r"^core::slice::<impl \[.*\]>::chunks$", m_slice_chunks)
+    A(r"^(core|std)::slice::<impl \[.*\]>::split_at$", m_split_at)
     A(r"^<.* as itertools::Itertools>::chunks$", m_iter_adapt("chunks"))
     A(r"^itertools::Itertools::chunks$", m_iter_adapt("chunks"))
     A(r"^<&itertools::IntoChunks<.*> as std::iter::IntoIterator>::into_iter$", m_deref_model)
